@@ -174,6 +174,11 @@ class Ctx:
             if len(self.samples) < 4 or (self.evaluations % 97 == 0 and len(self.samples) < 12):
                 self.samples.append({"case_id": case_id, "case": d})
 
+    def enough(self, k=6):
+        """True once k violations (not known findings) are on record: expensive workloads may stop early - the verdict is
+        decided, more witnesses only cost time (coverage obligations are waived by `finish` in that case)."""
+        return len(self.violations) >= k
+
     def obligation(self, name, met, detail=None):
         self.obligations[name] = {"met": bool(met), "detail": _jsonable(detail)}
 
